@@ -175,6 +175,13 @@ impl SqliteStoreBuilder {
             .max_connections(self.max_connections)
             .idle_timeout(self.idle_timeout)
             .max_lifetime(self.max_lifetime)
+            // Do not ping idle connections when they are acquired. The ping is an await point
+            // inside `acquire` during which the pool holds the connection outside of its idle
+            // queue: if the acquiring future is dropped right there (a cancelled `begin` or query,
+            // for example by `tokio::select!`), sqlx closes that connection. For an in-memory
+            // database with a single connection this silently replaces the whole database with
+            // a fresh, empty one. SQLite connections are local, so the liveness check buys nothing.
+            .test_before_acquire(false)
             .connect(&self.url)
             .await?;
 
